@@ -791,7 +791,7 @@ def dump(dbs, f, **options):
             for signal in frame.signals:
                 compu_method = create_sub_element(elements, 'COMPU-METHOD')
                 create_sub_element(compu_method, 'SHORT-NAME', signal.name)
-                # missing: UNIT-REF
+                create_sub_element(compu_method, 'UNIT-REF', '/DataType/Unit/{}'.format(signal.name), dest='UNIT')
                 compu_int_to_phys = create_sub_element(
                     compu_method, 'COMPU-INTERNAL-TO-PHYS')
                 compu_scales = create_sub_element(compu_int_to_phys, 'COMPU-SCALES')
